@@ -645,3 +645,22 @@ var Chains = func() []struct{ Src, In string } {
 	}
 	return out
 }()
+
+// BigNumbers: integers beyond the int64 range (big integers are Go pointers: an accumulator that
+// adopts its first operand writes into the caller's number) mixed with small ones, as elements of
+// the input, as literals of the code and as results fed back, under every arithmetic and ordering
+// operation, each followed by another look at the input.
+var BigNumbers = func() []struct{ Src, In string } {
+	var out []struct{ Src, In string }
+	in := `{"b":[100000000000000000000,200000000000000000000,3],"m":[3,100000000000000000000,200000000000000000000],"n":[100000000000000000000,5,300000000000000000000],"o":{"x":100000000000000000000,"y":7},"z":[0,100000000000000000000]}`
+	for _, src := range []string{
+		`.b | add`, `.m | add`, `.n | add`, `add(.b[])`, `add(.b[0:2][])`, `[.b[0], .b[1]] | add`, `.b[0] + .b[1]`, `.b[0] + .b[2]`, `.b[2] + .b[0]`, `.b[0] - .b[2]`, `.b[2] - .b[0]`, `.b[0] * .b[2]`, `.b[0] / .b[2]`, `.b[0] % .b[2]`, `.b[2] % .b[0]`, `.b[0] % 7`, `.b[0] / 0?`, `.b[0] % 0?`,
+		`.b[0] == .b[2]`, `.b[0] < .b[2]`, `.b[2] < .b[0]`, `.b[0] == .b[0]`, `.b | sort`, `.m | sort`, `.b | min, max`, `.b | unique`, `.b | map(. + 1)`, `.b | map(. * 2)`, `.b[0] |= . + 1`, `.b[] |= . + 1`, `reduce .b[] as $x (0; . + $x)`, `reduce .b[] as $x (null; . + $x)`, `foreach .b[] as $x (0; . + $x)`,
+		`[.b[] | tostring]`, `.b | tojson`, `.b | contains([3])`, `.b | index(3)`, `.b | group_by(. > 5)`, `[100000000000000000000, 200000000000000000000] | add`, `[100000000000000000000, 200000000000000000000, 1] | add`, `100000000000000000000 + 1`, `100000000000000000000 + .b[0]`, `.o.x + .o.y`, `.o | add`, `[.o[]] | add`,
+		`.b[0] as $q | [$q, $q] | add`, `.b | (add, add)`, `.b | add as $s | [$s, .[0]]`, `[.b, .m] | map(add)`, `.b | add | . + 1`, `.b | [add, .[0], .[1]]`, `.z | add`, `.b | add / .[2]`, `.b | add - .[0]`, `.b | sort_by(-.)`, `.b | max_by(.)`, `[.b[] | . % 1000]`, `.b | map(. == 100000000000000000000)`, `.b[0] | ., . + 1, .`,
+		`[limit(3; repeat(.b[0] + 1))]`, `.b | first(add), last(add)`, `.b | (.[0] + .[1]), (.[0] + .[1])`, `.b | to_entries | map(.value) | add`, `.b | tostream`, `.b[0] | tojson | fromjson | . + 1`, `.b | @json`, `-(.b[0])`, `.b[0] | abs?`, `.b[0] | floor?`, `.b[0] | tostring | tonumber | . + 1`, `.b | indices(100000000000000000000)`, `.b | inside([100000000000000000000,200000000000000000000,3,4])`,
+	} {
+		out = append(out, struct{ Src, In string }{"(" + src + "), .", in})
+	}
+	return out
+}()
